@@ -6,11 +6,12 @@
 -/
 import Props.C16
 import Props.Family
-import Gen.SchemaFacts
+import Gen.Guards.CompatTrans
+import Gen.Guards.TextLoop
 namespace PM.Family.C16
 open PM
 open PM.C16
-open PM.Gen PM.Family
+open PM.Gen PM.Family PM.FromDom
 
 /-- `PM.C16.merge_succeeds_marks` with its schema guards discharged for the bundled schema family -/
 theorem merge_succeeds_marks (S : Schema) (hS : S ∈ familySchemas) (s1 s2 m : Step) (d d1 d2 : Node)
@@ -18,7 +19,7 @@ theorem merge_succeeds_marks (S : Schema) (hS : S ∈ familySchemas) (s1 s2 m : 
     (hn : fnorm d.kids = true) (h1 : S.apply s1 d = .ok d1) (h2 : S.apply s2 d1 = .ok d2)
     (hm : s1.merge s2 = some m) :
     ∃ d', S.apply m d = .ok d' :=
-  PM.C16.merge_succeeds_marks S (family_facts _ hS).TextLoop s1 s2 m d d1 d2 hmark hv hn h1 h2 hm
+  PM.C16.merge_succeeds_marks S (textLoop_of_B _ (family_textLoop _ hS)) s1 s2 m d d1 d2 hmark hv hn h1 h2 hm
 
 /-- `PM.C16.merge_equiv_marks` with its schema guards discharged for the bundled schema family -/
 theorem merge_equiv_marks (S : Schema) (hS : S ∈ familySchemas) (s1 s2 m : Step) (d d1 d2 : Node)
@@ -26,7 +27,7 @@ theorem merge_equiv_marks (S : Schema) (hS : S ∈ familySchemas) (s1 s2 m : Ste
     (hn : fnorm d.kids = true) (h1 : S.apply s1 d = .ok d1) (h2 : S.apply s2 d1 = .ok d2)
     (hm : s1.merge s2 = some m) :
     S.apply m d = .ok d2 :=
-  PM.C16.merge_equiv_marks S (family_facts _ hS).TextLoop s1 s2 m d d1 d2 hmark hv hn h1 h2 hm
+  PM.C16.merge_equiv_marks S (textLoop_of_B _ (family_textLoop _ hS)) s1 s2 m d d1 d2 hmark hv hn h1 h2 hm
 
 /-- `PM.C16.merge_succeeds_replace` with its schema guards discharged for the bundled schema family -/
 theorem merge_succeeds_replace (S : Schema) (hS : S ∈ familySchemas) (d d1 d2 : Node) (f t f' t' : Nat)
@@ -39,7 +40,7 @@ theorem merge_succeeds_replace (S : Schema) (hS : S ∈ familySchemas) (d d1 d2 
     (ha1 : alignedAt d1.kids f = true ∧ alignedAt d1.kids (f + sl.size.toNat) = true)
     (ha2 : alignedAt d2.kids f' = true ∧ alignedAt d2.kids (f' + sl'.size.toNat) = true) :
     S.apply m d = .ok d2 :=
-  PM.C16.merge_succeeds_replace S (family_facts _ hS).compatTrans d d1 d2 f t f' t' sl sl' m hv hn hsn hsn' hp
-    hp' h1 h2 hm ha1 ha2
+  PM.C16.merge_succeeds_replace S (family_compatTrans _ hS) d d1 d2 f t f' t' sl sl' m hv hn hsn hsn' hp hp' h1
+    h2 hm ha1 ha2
 
 end PM.Family.C16
